@@ -1,5 +1,6 @@
 From Coq Require Import List NArith Bool.
-From V.Mgr Require Import Model Caps Ledger LedgerInv.
+From V.C10 Require Import Model.
+From V.Mgr Require Import DialShape DialShapeProofs Model Caps Ledger LedgerInv.
 Import ListNotations.
 Open Scope N_scope.
 From V.C05 Require Import Properties.
@@ -21,6 +22,23 @@ Check (C05_pending_is_owed :
   forall L es, feasible L init g0 es ->
   let '(m, g) := lrun L init g0 es in
   forall p c, dial_record (state_of m p) = Some c -> owed g c).
+Check (C05_dial_address_tcp_sound :
+  forall listen a q, dial_shape listen a = SvTcp q ->
+  exists h port ho, a = [h; Tcp port; P2p q] /\ is_host h = true /\
+                    parse TTcp a = Some (ho, port, Some q)).
+Check (C05_dial_address_ws_sound :
+  forall listen a q, dial_shape listen a = SvWs q ->
+  exists h port w ho, a = [h; Tcp port; w; P2p q] /\ is_host h = true /\ (w = Ws \/ w = Wss) /\
+                      parse TWs a = Some (ho, port, Some q)).
+Check (C05_dial_address_refusals :
+  forall listen a code, dial_shape listen a = SvRefuse code ->
+  code = RET_PEER_ID_MISSING \/ code = RET_SELF' \/ code = RET_NOT_SUPPORTED).
+Check (C05_refused_address_unchanged :
+  forall L m a code, limit_reached (max_out L) (outs m) = false ->
+  dial_shape LISTEN a = SvRefuse code -> do_dial_shape L m a = (m, [Ret code])).
+Check (C05_dial_address_unfixed_refuted :
+  exists a q q', dial_shape_unfixed [] a = SvTcp q /\
+                 (exists ho port, parse TTcp a = Some (ho, port, Some q')) /\ q <> q').
 Check (C05_redial_attempted :
   forall L m p,
   state_of m p = Disconnected None -> mem p (known m) = true -> p <> LOCAL ->
